@@ -140,6 +140,19 @@ def replay_validate(ctx, name, driver_mod, driver_args, behaviours, trace_module
                               out, drv_timeout, env)
         if not os.path.exists(out):
             raise Broken("driver produced no trace (%s): rc=%s %s" % (name, rc, err))
+        if rc == 3:
+            raise Broken("the driver itself failed (%s): %s" % (name, err[-1200:]))
+        if rc != 0:
+            # the process ended inside the library (exit(), abort, signal): make that an event no model explains
+            with open(out, "rb+") as f:
+                data = f.read()
+                if not data.endswith(b"\n"):
+                    data = data[:data.rfind(b"\n") + 1]
+                if not data.rstrip().endswith(b'{"e":"ProcessDied"}'):
+                    data += b'{"e":"ProcessDied"}\n'
+                f.seek(0)
+                f.truncate()
+                f.write(data)
         return k, cw, out, rc, err
 
     with cf.ThreadPoolExecutor(max_workers=jobs) as ex:
@@ -237,6 +250,11 @@ def replay_validate(ctx, name, driver_mod, driver_args, behaviours, trace_module
                               list(driver_args[1:]), out, drv_timeout, env)
         if not os.path.exists(out):
             raise Broken("re-run of rejected behaviour produced no trace: " + err)
+        if rc == 3:
+            raise Broken("the driver itself failed on re-run (%s): %s" % (name, err[-1200:]))
+        if rc != 0:
+            with open(out, "a") as f:
+                f.write('{"e":"ProcessDied"}\n')
         os.makedirs(os.path.join(cw, "v-x"), exist_ok=True)
         r = validate(out, cw, "x")
         if r.accepted:
@@ -298,6 +316,11 @@ def graphs_replay(ctx, mc_module, trace_module, driver_mod, graphs, invariants, 
         walks, cov, tot = walker.edge_cover(g, maxlen=gr.get("maxlen", maxlen), rng=random.Random(ctx.seed))
         out["edges_total"] += tot
         out["edges_replayed"] += cov
+        if gr.get("repeat"):
+            # walks through actions whose concretisation is randomised (styles, buffer sizes) are replayed k times
+            sub, k = gr["repeat"]
+            extra = [w for w in walks if any(sub in str(x) for x in w)]
+            walks = walks + extra * (k - 1)
         for var in gr.get("variants", [("", [])]):
             suffix, args = var[0], var[1]
             soff = var[2] if len(var) > 2 else 0
